@@ -99,7 +99,9 @@ def expand (txs : Slots) (index : Nat) : List TxId → Nat → Res Slots
     | .panic => .panic
     | .ok t => expand t index gs (j + 1)
 
-/-- second loop of buildPendBlock over `notExistTxIndices`; the Bool is `buildSuccess`. -/
+/-- second loop of buildPendBlock over `notExistTxIndices`; the Bool is `buildSuccess`.
+A pooled group that does not fit behind its slot is not used: the slot is reset to nil, `buildSuccess`
+cleared (repair fdde6e4; `fillOld` below is the code before it). -/
 def fill (pool : Pool) : List (Nat × SH) → Slots → Bool → Res (Slots × Bool)
   | [], txs, ok => .ok (txs, ok)
   | (index, h) :: w, txs, ok =>
@@ -110,12 +112,14 @@ def fill (pool : Pool) : List (Nat × SH) → Slots → Bool → Res (Slots × B
       match pool.get h with
       | none => fill pool w txs false                  -- not in the pool
       | some t =>
-        match setSlot txs index t.id with
-        | .panic => .panic
-        | .ok t1 =>
-          match expand t1 index t.group 0 with
+        if index + t.group.length > txs.length then fill pool w txs false   -- Txs[index] = tx … = nil again
+        else
+          match setSlot txs index t.id with
           | .panic => .panic
-          | .ok t2 => fill pool w t2 ok
+          | .ok t1 =>
+            match expand t1 index t.group 0 with
+            | .panic => .panic
+            | .ok t2 => fill pool w t2 ok
 
 structure BuildOut where
   done : Bool                     -- return value of buildPendBlock
@@ -188,7 +192,7 @@ inductive LtOut where
 
 /-- PubBroadCast + val.addBroadcastMsg: returns the state with the message-list entry appended. -/
 def postChain (s : State) (key : String) : State :=
-  if s.multi && s.posted.contains key then { s with msgs := s.msgs ++ [true] }   -- (nil, nil) is queued as is
+  if s.multi && s.posted.contains key then s      -- (nil, nil): nothing sent, nothing queued (repair e49ca2c)
   else { s with msgs := s.msgs ++ [false], posted := if s.multi then key :: s.posted else s.posted }
 
 /-- handleBroadcastReceive(psLtBlockTopic) → addLtBlock → buildPendBlock -/
@@ -289,12 +293,14 @@ def reqTick (s : State) : Res (State × List ReqOut) :=
   | .ok (keep, outs) => .ok ({ s with reqs := keep }, outs)
 
 inductive RespOut where
-  | undecodable | posted | unsupported
+  | undecodable | posted | unsupported | duplicate
   deriving Repr, DecidableEq
 
 /-- handlePeerMsg(blockRespMsgID): decode, then postBlockChain (no duplicate filter of its own) -/
 def recvResp (s : State) (decodable : Bool) (key : String) : State × RespOut :=
-  if !decodable then (s, .undecodable) else (postChain s key, .posted)
+  if !decodable then (s, .undecodable)
+  else if s.multi && s.posted.contains key then (postChain s key, .duplicate)   -- suppressed by p2p.Manager
+  else (postChain s key, .posted)
 
 /-- handleBroadcastReceive(psBlockTopic): a full block that passed validateBlock is posted -/
 def recvBlock (s : State) (key : String) : State := postChain s key
@@ -432,11 +438,12 @@ structure DlReply where
   items : Nat
   firstIsBlock : Bool      -- Items[0].Value is an InvData_Block
   blockNil : Bool          -- …whose Block is nil
-  height : Int
+  height : Int             -- height of that block
+  requested : Int          -- the height that was asked for
   deriving Repr
 
-/-- downloadBlockFromPeerOld after the request was written: `some h` = block of height h returned
-(no comparison with the requested height), `none` = error. -/
+/-- downloadBlockFromPeerOld after the request was written: `some h` = block of height h returned,
+`none` = error; a block of another height than requested is an error (repair 8854790). -/
 def dlReply (r : DlReply) : Res (Option Int) :=
   match r.rd with
   | .err => .ok none
@@ -444,6 +451,7 @@ def dlReply (r : DlReply) : Res (Option Int) :=
   | .msg =>
     if !r.hasMessage || r.items = 0 then .ok none
     else if !r.firstIsBlock || r.blockNil then .ok none
+    else if r.height ≠ r.requested then .ok none
     else .ok (some r.height)
 
 inductive VerOut where
@@ -516,6 +524,39 @@ def hasRecoverFact : String → Option Bool
 /-- the node survives outcome `r` of path `p` -/
 def survives {α : Type} (p : Path) (r : Res α) : Bool := !r.isPanic || recovered p
 
+/-! ### regression: the code before the repairs fdde6e4 / e49ca2c -/
+
+/-- buildPendBlock's second loop before fdde6e4: the group is expanded without a bounds check -/
+def fillOld (pool : Pool) : List (Nat × SH) → Slots → Bool → Res (Slots × Bool)
+  | [], txs, ok => .ok (txs, ok)
+  | (index, h) :: w, txs, ok =>
+    match txs[index]? with
+    | none => .panic
+    | some (some _) => fillOld pool w txs ok
+    | some none =>
+      match pool.get h with
+      | none => fillOld pool w txs false
+      | some t =>
+        match setSlot txs index t.id with
+        | .panic => .panic
+        | .ok t1 =>
+          match expand t1 index t.group 0 with
+          | .panic => .panic
+          | .ok t2 => fillOld pool w t2 ok
+
+/-- did buildPendBlock panic on this queued block, before the repair -/
+def buildOldPanics (pool : Pool) (pd : Pend) : Bool :=
+  if pd.hashes.isEmpty then false
+  else
+    match missing pd.hashes pd.txs 0 with
+    | .panic => true
+    | .ok w => pool.up && (fillOld pool w pd.txs true).isPanic
+
+/-- postBlockChain before e49ca2c: the (nil, nil) of a suppressed duplicate was queued as it was -/
+def postChainOld (s : State) (key : String) : State :=
+  if s.multi && s.posted.contains key then { s with msgs := s.msgs ++ [true] }
+  else { s with msgs := s.msgs ++ [false], posted := if s.multi then key :: s.posted else s.posted }
+
 /-! ### the two scripted crash witnesses (also run by the harness in a child process with the production loops) -/
 
 /-- S-C33: a light block with three slots whose last short hash is that of a two-transaction group; the
@@ -530,5 +571,16 @@ def witnessPendTick : Res (State × TickOut) :=
 def witnessDeniedTick : Res State :=
   let s0 : State := { multi := true }
   deniedTick (recvResp (recvResp s0 true "b").1 true "b").1
+
+/-- the same two witnesses on the code before the repairs -/
+def witnessPendTickOld : Bool :=
+  let s0 : State := { pool := ({} : Pool).push "h1" ⟨1, []⟩ }
+  match recvLt s0 ⟨"k", true, 10, 3, some 0, ["h0", "h1", "h20"], 2⟩ with
+  | .panic => false
+  | .ok (s1, _) => s1.pend.any (buildOldPanics (s1.pool.push "h20" ⟨20, [20, 21]⟩))
+
+def witnessDeniedTickOld : Res State :=
+  let s0 : State := { multi := true }
+  deniedTick (postChainOld (postChainOld s0 "b") "b")
 
 end C33
